@@ -214,8 +214,10 @@ def history(rnd, idx, tier):
                 p.style = dict(p.style, rule_prefix=rnd.choice(["r", "rule_", "cc", "x-y."]))
             elif which < 0.7:
                 p.style = dict(p.style, comments=not p.style.get("comments"), blank=rnd.random() < 0.5)
-            elif which < 0.85:
+            elif which < 0.8:
                 p.style = dict(p.style, cmdvars=not p.style.get("cmdvars"))
+            elif which < 0.9:
+                p.style = dict(p.style, sharedrule=not p.style.get("sharedrule"))
             else:
                 a = rnd.randint(1, n); b = rnd.randint(a, n)
                 st = dict(p.style); st["include"] = (a, b); p.style = st
@@ -274,9 +276,14 @@ def regen_history(rnd, idx, tier):
     """The manifest is an output of a generator step (C17)."""
     fname = rnd.choice(["build.ninja", "build.ninja", "alt.ninja"])
     bdir = rnd.choice(["", "", "bd"])
+    # the generator may need a tool that is itself built (order-only): editing the tool's source
+    # makes phase 1 run a command without regenerating the manifest
+    helper = rnd.random() < 0.4
     def version(k, nsteps, rewire, cmdv, pooldepth=None):
-        steps = [step([fname], ["gen.in"] + (["gen2.in"] if k % 2 else []), cmd="regen v%d" % cmdv,
-                      eff={"kind": "gen", "gen": "cur", "reads": []})]
+        steps = [step([fname], ["gen.in"] + (["gen2.in"] if k % 2 else []), oo=(["tool"] if helper else []),
+                      cmd="regen v%d" % cmdv, eff={"kind": "gen", "gen": "cur", "reads": []})]
+        if helper:
+            steps.append(step(["tool"], ["tool.in"], cmd="mktool", eff={"kind": "write", "reads": []}))
         for i in range(1, nsteps + 1):
             ins = ["s%d" % i]
             if rewire and i > 1:
@@ -325,6 +332,8 @@ def regen_history(rnd, idx, tier):
     ops.append(inv())
     for _ in range(rnd.randint(2, 5)):
         r = rnd.random()
+        if helper and rnd.random() < 0.4:
+            ops.append({"op": "write", "path": "tool.in"})
         if r < 0.5:
             ops.append({"op": "write", "path": rnd.choice(["gen.in", "gen2.in"])})
         elif r < 0.8:
